@@ -146,3 +146,11 @@ fn local_scope() {
         a
     }
 }
+
+// mock support requested for a module WITHOUT any visible function (no un-mock list to emit)
+#[entrait(pub UEmptyMod, mock_api = UEmptyModMock)]
+pub mod u_empty_mod {}
+#[entrait(pub UOnlyPrivate, mock_api = UOnlyPrivateMock)]
+pub mod u_only_private {
+    fn hidden<D>(deps: &D) {}
+}
